@@ -237,6 +237,8 @@ def judge(text, mode, obs, full):
 
 def run_shard(args):
     kind = args[0]
+    if kind == 'machine':
+        return machine(args[1])
     if kind == 'chars':
         _, n, shard, sigma = args
         texts = [(t, 'chars len=%d' % l) for t, l in X.shard_strings(sigma, n, shard)]
@@ -274,13 +276,96 @@ def run_shard(args):
     return r
 
 
+# ---------------------------------------------------------------- E-STATE: the lexer's line machine (hook H1)
+M_INDENTS = ['', ' ', '  ', '    ', '        ', '\t', '\t\t', ' \t', '\t ', '  \t', '\t  ', '\x0c', '\x0c  ', '  \x0c', '   ', '\t\t\t']
+M_BODIES = ['a', 'if a:', 'x = (', ')', '# c', '', 'b = [1,', ']', 'else:', 'a \\', 'pass', '{', '}:', 'def f(', 'q):']
+M_MAX_STACK = 4
+M_MAX_NEST = 2
+SENTINEL = 'z\n'
+
+
+def machine(tier):
+    """BFS over the canonical states of the lexer at a physical line boundary: (indentation stack, bracket nesting), read through hook H1.
+    A state is represented by a shortest text that reaches it; every (state, line template) transition is executed on the real lexer
+    (text + line + sentinel line), its tokens are checked with the tiling invariants, and the abstraction is asserted: a second history
+    reaching the same canonical state must produce the same tokens (relative to the line start) and the same successor for every line."""
+    r = C.Result()
+    lines = [i + b + '\n' for i in M_INDENTS for b in M_BODIES]
+    init = ((('0', '0'),), 0)
+    reps = {init: ['']}          # state -> up to two histories
+    frontier = [init]
+    seen_trans = 0
+    outcomes = {}
+    def state_after(obs, at):
+        for loc, abol, nesting, st in obs.get('bounds', []):
+            if loc == at:
+                return (tuple((str(t), str(sp)) for t, sp in st), nesting)
+        return None
+    depth = 0
+    while frontier and depth < 12:
+        depth += 1
+        reqs = []
+        for st in frontier:
+            for hi, hist in enumerate(reps[st][:2]):
+                for li, line in enumerate(lines):
+                    reqs.append((st, hi, hist, li, line))
+        res = []
+        for chunk in (reqs[i:i + 6000] for i in range(0, len(reqs), 6000)):
+            res += C.run_worker(['lexb\texec\t' + C.hx(h + l + SENTINEL) for _, _, h, _, l in chunk])
+        nxt = []
+        first = {}
+        for (st, hi, hist, li, line), obs in zip(reqs, res):
+            base = len(hist.encode())
+            end = base + len(line.encode())
+            r.evaluations += 1
+            r.transitions += 1
+            if K.is_bad(obs):
+                r.fails.append(C.Fail(PROP, 'line machine · obs=%s' % K.bad_kind(obs), 'lexm', {'history': hist, 'line': line}, obs, None))
+                continue
+            seg = [(t['t'], a - base, b - base) for t, a, b in obs['toks'] if base <= a < end or (a == end and t['t'] in ('Newline',))]
+            err = None
+            if 'err' in obs and obs['off'] <= end:
+                err = obs['err'].get('t')
+            new = None if err else state_after(obs, end)
+            out = ('err:' + err) if err else ('->%d/%d' % (len(new[0]), new[1]) if new else 'no-boundary')
+            outcomes[out] = outcomes.get(out, 0) + 1
+            key = (st, li)
+            if hi == 0:
+                first[key] = (seg, err, new)
+                if not err:
+                    for clause, detail in invariants(hist + line + SENTINEL, obs, False):
+                        r.fails.append(C.Fail(PROP, 'default · tiling · ' + clause, 'lex', {'mode': 'exec', 'text': hist + line + SENTINEL}, {'detail': detail}, None))
+                        break
+                if new is not None and len(new[0]) <= M_MAX_STACK and new[1] <= M_MAX_NEST:
+                    if new not in reps:
+                        reps[new] = [hist + line]
+                        nxt.append(new)
+                    elif len(reps[new]) < 2 and hist + line not in reps[new]:
+                        reps[new].append(hist + line)
+            else:
+                if first.get(key) != (seg, err, new):
+                    r.fails.append(C.Fail(PROP, 'line machine · two histories with the same canonical state behave differently (hidden lexer state)', 'lexm',
+                                          {'state': repr(st), 'history_a': reps[st][0], 'history_b': hist, 'line': line}, {'a': repr(first.get(key))[:300], 'b': repr((seg, err, new))[:300]}, None))
+        frontier = nxt
+    r.states = len(reps)
+    r.validated = r.transitions
+    for k, v in outcomes.items():
+        r.outcomes['machine:' + k] += v
+    r.by_bound['line machine: %d line templates, stack<=%d, nesting<=%d' % (len(lines), M_MAX_STACK, M_MAX_NEST)] = r.transitions
+    r.extra['line_machine'] = {'states': len(reps), 'transitions': r.transitions, 'bfs_depth': depth, 'closed': not frontier}
+    r.samples.append({'state': repr(sorted(reps)[len(reps) // 2]), 'history': reps[sorted(reps)[len(reps) // 2]][0]})
+    if frontier:
+        r.caps_hit.append('line machine: BFS depth cap 12 reached with a non-empty frontier')
+    return r
+
+
 CHAR_SIGMA = R.CHAR_SIGMA + ['\x0c', '0', 'e', 'x', '-', '*', '<', '>', 'b', 'f', 'r', 'j']
 
 
 def run(tier, seed):
     t0 = time.time()
     d = K.DEPTH['quick']
-    jobs = []
+    jobs = [('machine', tier)]
     n = 3 if tier == 'quick' else 4
     jobs += [('chars', n, s, CHAR_SIGMA) for s in X.prefix_shards(CHAR_SIGMA, n, 1 if tier == 'quick' else 2)]
     core = ['a', '1', '.', '(', ')', ':', '=', "'", '\\', '#', ' ', '\t', '\n', '\r', 'é']
@@ -291,14 +376,18 @@ def run(tier, seed):
     jobs += [('corpus', g, d) for g in K.group_shards(K.shards_for(d, 'file'), 64)]
     total = C.Result()
     allh = set()
+    mstates = 0
     for r in C.pmap(run_shard, jobs):
         allh |= r.extra.pop('_hashes', set())
+        if 'line_machine' in r.extra:
+            mstates = r.states
+        r.states = 0
         total.merge(r)
-    total.states = len(allh)
+    total.states = len(allh) + mstates
     total.nontrivial = total.validated
     rule = ('texts: every string of length<=%d over the %d-character alphabet %r and of length<=%d over the 15-character core; every sequence of <=%d lexemes out of %d (all operator and '
             'delimiter spellings, keywords, names, numbers, strings, whitespace kinds); every G_ref sentence with <=2 non-default alternatives under 5 layouts in three modes; each lexed by the '
-            'default and the full-lexer build; states = distinct texts, transitions = tokens checked; non-trivial = lexes without error and agrees with the reference tokenizer'
+            'default and the full-lexer build; plus the explicit-state search of the lexer line machine (states (indentation stack, nesting) read through hook H1, 240 line templates, BFS with de-duplication and a second history per state to assert the abstraction); states = distinct texts + machine states, transitions = tokens checked + machine transitions; non-trivial = lexes without error and agrees with the reference tokenizer'
             % (n, len(CHAR_SIGMA), ''.join(CHAR_SIGMA), nc, nl, len(LEXEMES)))
     return C.finish(PROP, tier, seed, t0, total, rule,
                     ['reference-free tiling invariants are computed from (Tok, range) and the text',
